@@ -333,7 +333,13 @@ def check_c10(entry, rasters, o, extra_pool=()):
     for r in rasters:
         probs = r.problems(allow_widen=(ident == "viewshed"), allow_inplace=(r.rid == inplace_rid))
         for what, detail in probs:
-            v.append({"class": "input_" + what, "raster": r.rid, "detail": detail})
+            item = {"class": "input_" + what, "raster": r.rid, "detail": detail}
+            if o.sim is not None and o.sim.watch_hits:
+                # monitor M2: the first simulated task after which the caller's buffer differed
+                hit = [h for h in o.sim.watch_hits if h["buffer"] == r.rid]
+                if hit:
+                    item["first_writing_task"] = {"step": hit[0]["step"], "key": hit[0]["key"]}
+            v.append(item)
     if o.exc is not None:
         msg = str(o.exc).lower()
         if "read-only" in msg or "readonly" in msg or "read only" in msg:
